@@ -383,6 +383,7 @@ func checkC17(c *Ctx, r *Report, tier string) {
 	round5(c, r, "C17")
 	round6(c, r, "C17")
 	round7(c, r, "C17")
+	round8(c, r, "C17")
 	r.Rule("C17.R1", "no loop-variable capture by a goroutine (language version < 1.22): a closure started with `go` inside a loop must not reference the cell of a variable that the loop re-assigns", 1)
 	r.Rule("C17.R2", "once, on exactly one branch: in the loop over the partitions each iteration either adds the local item count and byte size to the two accumulators or spawns exactly one remote lookup which adds the two response fields", 3)
 	r.Rule("C17.R3", "failure fails the call: every error branch of the remote worker sends the error; the collector returns an error for a non-nil message and for a done context; PartitionInfo refuses when the node does not host the partition", 4)
